@@ -306,7 +306,7 @@ class C07(Prop):
     thm_module = "H263V.Thm.C07"
     rule = ("Y lines: 256x1 pictures, luma 0..255 with one (Cb, Cr) pair per picture, through bt601::yuv420_to_rgba vs. the Lean "
             "model; quick: a 24x24 stratified grid of (Cb, Cr) pairs incl. the extremes (147,456 triples) plus random pairs plus every pair for which some luma puts a channel sum exactly on a rounding boundary; "
-            "thorough: all 65,536 pairs = all 2^24 triples.  Non-trivial / distinct: distinct (Y,Cb,Cr) triples counted (256 per distinct pair).")
+            "thorough: all 65,536 pairs = all 2^24 triples; both tiers: rows whose neighbouring chroma samples differ (every pattern of {neutral, v} over the two Cb and two Cr samples of a 4-pixel group) - a pixel depends on its own triple only.  Non-trivial / distinct: distinct (Y,Cb,Cr) triples counted (256 per distinct pair).")
     assumptions = ["little-endian target (the big-endian cfg branch of the byte interleave is not compiled here)",
                    "wide::i32x4 operations are lane-wise and wrap (modelled with explicit wrap32, proved not to occur)"]
 
@@ -338,6 +338,12 @@ class C07(Prop):
             pairs = [(a, b) for a in range(256) for b in range(256)]
         for (cb, cr) in pairs:
             out.append(yuv_line(256, 1, ys, [cb] * 128, [cr] * 128))
+        # neighbour independence: a pixel depends on its own triple only, whatever the chroma samples of the pixels converted in the
+        # same 4-pixel group: every pattern of {neutral, v} over the two Cb and the two Cr samples of a group
+        for v in (0, 16, 127, 129, 240, 255, rng.randint(1, 254)):
+            for m in range(16):
+                c = [v if (m >> k) & 1 else 128 for k in range(4)]
+                out.append(yuv_line(256, 1, ys, [c[0], c[1]] * 64, [c[2], c[3]] * 64))
         self._pairs = len(set(pairs))
         return out
 
